@@ -241,6 +241,37 @@ func c15CaseInsts(tier string) []CaseInst {
 			"\tvx.Assert(c15calls%s == 1 && c15x%s == x && c15y%s == y && o == c15r%s, \"uncurried call = one call of the curried function with both arguments in place\")\n", id, id, id, id, id, id, id, id)
 		return []HarnessSrc{h("VX_C15_uncurryonly_"+id, "uncurry", body)}
 	}})
+	// Uncurry alone with several inner parameters: the inner parameter that shares the outer parameter's name
+	// is first, last or in the middle (added after seed C15-e: renames dropped unless the last one collides)
+	type inP struct{ name, typ string }
+	mk := func(cid string, inner []inP) {
+		out = append(out, CaseInst{ID: cid, Desc: "uncurry func(a int) func(...) int with a colliding inner parameter", Gen: func(g *Gen, id string) []HarnessSrc {
+			var decl, sig, sigIn, caps, pro, args, conds strings.Builder
+			fmt.Fprintf(&decl, "var c15calls%s int\nvar c15x%s int\nvar c15r%s int\n", id, id, id)
+			for i, p := range inner {
+				fmt.Fprintf(&decl, "var c15in%s_%d %s\n", id, i, p.typ)
+				if i > 0 {
+					sig.WriteString(", ")
+					sigIn.WriteString(", ")
+				}
+				fmt.Fprintf(&sig, "%s %s", p.name, p.typ)
+				fmt.Fprintf(&sigIn, "q%d %s", i, p.typ)
+				fmt.Fprintf(&caps, "\t\tc15in%s_%d = q%d\n", id, i, i)
+				fmt.Fprintf(&pro, "\ty%d := vx.Nondet[%s](\"y%d\")\n", i, p.typ, i)
+				fmt.Fprintf(&args, ", y%d", i)
+				fmt.Fprintf(&conds, " && c15in%s_%d == y%d", id, i, i)
+			}
+			fmt.Fprintf(&decl, "\nfunc c15cur%s(a int) func(%s) int {\n\tx := a\n\treturn func(%s) int {\n\t\tc15calls%s++\n\t\tc15x%s = x\n%s\t\treturn c15r%s\n\t}\n}\n", id, sig.String(), sigIn.String(), id, id, caps.String(), id)
+			g.addFunc("c15decl_"+id, decl.String())
+			body := fmt.Sprintf("\tc15calls%s = 0\n\tc15r%s = vx.Nondet[int](\"r\")\n\tx := vx.Nondet[int](\"x\")\n%s\to := deriveUncurry%s(c15cur%s)(x%s)\n"+
+				"\tvx.Assert(c15calls%s == 1 && c15x%s == x%s && o == c15r%s, \"uncurried call = one call of the curried function with every argument in place\")\n",
+				id, id, pro.String(), id, id, args.String(), id, id, conds.String(), id)
+			return []HarnessSrc{h("VX_C15_uncurryonly_"+id, "uncurry", body)}
+		}})
+	}
+	mk("U02", []inP{{"a", "string"}, {"n", "int"}})
+	mk("U03", []inP{{"n", "int"}, {"a", "string"}})
+	mk("U04", []inP{{"n", "int"}, {"a", "string"}, {"b", "bool"}})
 	return out
 }
 
@@ -520,11 +551,16 @@ func c17CaseInsts(tier string) []CaseInst {
 			g.declare(leafTy)
 			LL := Slice(Slice(E))
 			g.RefClone(LL)
-			body := fmt.Sprintf("\tll := %s\n\tsnap := %s(ll)\n\tout := deriveJoin%s(ll)\n"+
+			// spare capacity of the inner lists is part of the caller's memory (seed C17-e: appending into the
+			// first inner list when it has room); snapshot it, and afterwards write through the result
+			spare := fmt.Sprintf("\tvar spare [][]%s\n\tfor i := 0; i < len(ll); i++ {\n\t\tfull := ll[i][:cap(ll[i])]\n\t\tvar c []%s\n\t\tfor j := 0; j < len(full); j++ {\n\t\t\tc = append(c, full[j])\n\t\t}\n\t\tspare = append(spare, c)\n\t}\n", E.Expr(), E.Expr())
+			spareChk := fmt.Sprintf("\tsok := true\n\tfor i := 0; i < len(ll) && i < len(spare); i++ {\n\t\tfull := ll[i][:cap(ll[i])]\n\t\tif len(full) != len(spare[i]) {\n\t\t\tsok = false\n\t\t}\n\t\tfor j := 0; j < len(full) && j < len(spare[i]); j++ {\n\t\t\tif !%s {\n\t\t\t\tsok = false\n\t\t\t}\n\t\t}\n\t}\n\tvx.Assert(sok, \"inner lists incl. their spare capacity not modified\")\n", eqExpr(E, "full[j]", "spare[i][j]"))
+			alias := fmt.Sprintf("\tw := %s\n\tfor i := 0; i < len(out); i++ {\n\t\tout[i] = w\n\t}\n\tvx.Assert(%s(ll, snap), \"result shares no memory with the inputs\")\n", nd(E, "w"), g.RefEq(LL))
+			body := fmt.Sprintf("\tll := %s\n\tsnap := %s(ll)\n"+spare+"\tout := deriveJoin%s(ll)\n"+
 				"\tif ll == nil {\n\t\tvx.Assert(out == nil, \"nil for nil\")\n\t\treturn\n\t}\n"+
 				"\tvar exp %s\n\tfor i := 0; i < len(snap); i++ {\n\t\tfor j := 0; j < len(snap[i]); j++ {\n\t\t\texp = append(exp, snap[i][j])\n\t\t}\n\t}\n"+
 				"\tok := len(out) == len(exp)\n\tfor i := 0; i < len(out) && i < len(exp); i++ {\n\t\tif !%s {\n\t\t\tok = false\n\t\t}\n\t}\n\tvx.Assert(ok, \"concatenation in order\")\n"+
-				"\tvx.Assert(%s(ll, snap), \"inputs not modified\")\n",
+				"\tvx.Assert(%s(ll, snap), \"inputs not modified\")\n"+spareChk+alias,
 				// three inner lists: a wrong write offset only shows from the third one on (seed C17-d)
 				ndo(LL, "ll", "len=3,cap=1,str=1"), g.RefClone(LL), id, Slice(E).Expr(), eqExpr(E, "out[i]", "exp[i]"), g.RefEq(LL))
 			return []HarnessSrc{h("VX_C17_join_"+id, "join", body)}
